@@ -18,6 +18,12 @@ NOT_EXERCISED = {
     'mleme_constraint_model': "static only: bct.algorithms.models cannot be imported (cannot import name 'BibTex' from bct.due) and the "
                               'function is an unimplemented stub',
 }
+# partner routines for the interleaving clause (cheap, always runnable, they draw)
+PARTNER = ('makerandCIJ_und', {'n': 7, 'k': 9})
+PARTNER2 = ('makerandCIJ_dir', {'n': 7, 'k': 9})
+# integer seeds outside what RandomState accepts go through get_rng's fallback path
+OUT_OF_RANGE_SEEDS = [-1, -7, 2 ** 32, 2 ** 40 + 17, 2 ** 63 - 1]
+
 # functions whose skeleton contains a draw that the inputs of this check are not expected to reach
 NO_DRAW_EXPECTED = {'generate_fc': 'raises before any draw'}
 
@@ -77,28 +83,53 @@ def run_task(task):
         out['fails'].append(('python-random-state-unchanged', 'random.getstate() differs after the seeded call (int seed)'))
     if r1[0] == 'timeout':
         return out
+    seq = ['%s(<%s arguments, builder seed %d>, seed=%d)' % (name, task['kind'], task['bseed'], s)]
     r2 = _call(f, kw, s)
-    out['calls'] += 1
-    if not _res_equal(r1, r2):
-        out['fails'].append(('same-seed-identical', 'two calls with seed=%d differ (%s vs %s)' % (s, r1[0], r2[0])))
-    r3 = _call(f, kw, np.random.RandomState(s))
-    out['calls'] += 1
-    if not _res_equal(r1, r3):
-        out['fails'].append(('int-seed-equals-RandomState', 'seed=%d vs seed=RandomState(%d) differ (%s vs %s)' % (s, s, r1[0], r3[0])))
-    # recording generator: global state untouched with a RandomState seed as well; count the local draws
-    np.random.seed(task['prior'][0] + 1)
-    pyrandom.seed(task['prior'][2] + 1)
-    np0, py0 = np.random.get_state(), pyrandom.getstate()
-    rec = Recorder(s)
-    r4 = _call(f, kw, rec)
-    out['calls'] += 1
-    out['local_draws'] = len(rec.log)
-    if not _state_equal(np0, np.random.get_state()):
-        out['fails'].append(('numpy-global-state-unchanged', 'np.random.get_state() differs after the seeded call (RandomState seed)'))
-    if py0 != pyrandom.getstate():
-        out['fails'].append(('python-random-state-unchanged', 'random.getstate() differs after the seeded call (RandomState seed)'))
-    if not _res_equal(r1, r4):
-        out['fails'].append(('int-seed-equals-RandomState', 'seed=%d vs recording RandomState(%d) differ' % (s, s)))
+    r2b = _call(f, kw, s)
+    out['calls'] += 2
+    seq += [seq[0], seq[0]]
+    if not (_res_equal(r1, r2) and _res_equal(r1, r2b)):
+        which = 'second' if not _res_equal(r1, r2) else 'third'
+        out['fails'].append(('same-seed-identical', 'three consecutive calls with seed=%d: the %s differs from the first (%s / %s / %s); sequence: %s'
+                             % (s, which, r1[0], r2[0], r2b[0], ' ; '.join(seq))))
+    # interleaving with a different routine that is given the same seed
+    g = getattr(bct, PARTNER[0] if name != PARTNER[0] else PARTNER2[0])
+    gkw = dict(PARTNER[1] if name != PARTNER[0] else PARTNER2[1])
+    gname = PARTNER[0] if name != PARTNER[0] else PARTNER2[0]
+    g1 = _call(g, gkw, s)
+    r2c = _call(f, kw, s)
+    g2 = _call(g, gkw, s)
+    out['calls'] += 3
+    seq2 = seq[:1] + ['%s(%s, seed=%d)' % (gname, ', '.join('%s=%r' % kv for kv in gkw.items()), s), seq[0], '%s(..., seed=%d)' % (gname, s)]
+    if not _res_equal(r1, r2c):
+        out['fails'].append(('same-seed-identical', 'after a call of %s with the same seed=%d the result differs from the first call; sequence: %s'
+                             % (gname, s, ' ; '.join(seq2))))
+    if not _res_equal(g1, g2):
+        out['fails'].append(('same-seed-identical', '%s(seed=%d) differs before / after a call of %s with the same seed; sequence: %s'
+                             % (gname, s, name, ' ; '.join(seq2))))
+    in_range = 0 <= s < 2 ** 32
+    if not in_range:
+        # RandomState(s) cannot be constructed: the int == RandomState(int) clause does not apply; the other clauses do
+        out['local_draws'] = -1
+    else:
+        r3 = _call(f, kw, np.random.RandomState(s))
+        out['calls'] += 1
+        if not _res_equal(r1, r3):
+            out['fails'].append(('int-seed-equals-RandomState', 'seed=%d vs seed=RandomState(%d) differ (%s vs %s)' % (s, s, r1[0], r3[0])))
+        # recording generator: global state untouched with a RandomState seed as well; count the local draws
+        np.random.seed(task['prior'][0] + 1)
+        pyrandom.seed(task['prior'][2] + 1)
+        np0, py0 = np.random.get_state(), pyrandom.getstate()
+        rec = Recorder(s)
+        r4 = _call(f, kw, rec)
+        out['calls'] += 1
+        out['local_draws'] = len(rec.log)
+        if not _state_equal(np0, np.random.get_state()):
+            out['fails'].append(('numpy-global-state-unchanged', 'np.random.get_state() differs after the seeded call (RandomState seed)'))
+        if py0 != pyrandom.getstate():
+            out['fails'].append(('python-random-state-unchanged', 'random.getstate() differs after the seeded call (RandomState seed)'))
+        if not _res_equal(r1, r4):
+            out['fails'].append(('int-seed-equals-RandomState', 'seed=%d vs recording RandomState(%d) differ' % (s, s)))
     # unseeded: a function of arguments and numpy's global state alone
     np.random.seed(task['useed'])
     pyrandom.seed(11)
@@ -174,6 +205,23 @@ def get_rng_correspondence(ck, bct):
             ck.violation('get_rng', 'int-is-fresh-RandomState', {'seed': k}, {})
         if not _state_equal(s0, np.random.get_state()) or p0 != pyrandom.getstate():
             ck.violation('get_rng', 'global-state-unchanged', {'seed': k}, {})
+    for k in [0, 5, 2 ** 32 - 1] + OUT_OF_RANGE_SEEDS:     # get_rng(seed) twice: equal states, distinct objects, also after use
+        for rnd in range(3):
+            a, b = call(g, k, t=2), call(g, k, t=2)
+            n += 1
+            if a[0] != 'ok' or b[0] != 'ok':
+                if a != b:
+                    ck.violation('get_rng', 'same-seed-identical', {'seed': k, 'sequence': 'get_rng(%d) twice' % k, 'results': [str(a)[:80], str(b)[:80]]}, {})
+                continue
+            if a[1] is b[1] or a[1] is glob:
+                ck.violation('get_rng', 'int-gives-distinct-fresh-objects', {'seed': k, 'sequence': 'get_rng(%d); get_rng(%d)' % (k, k), 'round': rnd}, {})
+            if not _state_equal(a[1].get_state(), b[1].get_state()):
+                ck.violation('get_rng', 'same-seed-same-state', {'seed': k, 'sequence': 'get_rng(%d); get_rng(%d)' % (k, k), 'round': rnd}, {})
+            if rnd == 0:
+                first_state = a[1].get_state()
+            elif not _state_equal(first_state, a[1].get_state()):
+                ck.violation('get_rng', 'same-seed-same-state', {'seed': k, 'sequence': 'get_rng(%d).rand(5) ; get_rng(%d)' % (k, k), 'round': rnd}, {})
+            a[1].rand(5)            # using a returned generator must not influence later get_rng calls
     for k in [2 ** 40 + 3, 'abc', (1, 2)]:      # not accepted by RandomState: the fallback path must stay deterministic and local
         np.random.seed(5)
         pyrandom.seed(5)
@@ -237,12 +285,14 @@ def main():
         tasks = [json.load(open(ck.replay))['case']['task']]
     else:
         kinds = ('und', 'bin', 'dir') if ck.tier == 'quick' else ('und', 'bin', 'dir', 'wdiag', 'signed')
-        nseeds = 2 if ck.tier == 'quick' else 16
+        nseeds = 3 if ck.tier == 'quick' else 16
         tasks = []
         for name in seedful:
-            for kind in kinds:
-                for _ in range(nseeds):
-                    tasks.append({'function': name, 'kind': kind, 'bseed': int(ck.rs.randint(2 ** 31)), 'seed': int(ck.rs.randint(2 ** 31)),
+            for ki, kind in enumerate(kinds):
+                for j in range(nseeds):
+                    # the last seed of every (function, flavour) is an integer that RandomState rejects (get_rng's fallback path)
+                    sd = int(ck.rs.randint(2 ** 31)) if j < nseeds - 1 else OUT_OF_RANGE_SEEDS[int(ck.rs.randint(len(OUT_OF_RANGE_SEEDS)))]
+                    tasks.append({'function': name, 'kind': kind, 'bseed': int(ck.rs.randint(2 ** 31)), 'seed': sd,
                                   'prior': [int(ck.rs.randint(2 ** 31)), int(ck.rs.randint(0, 50)), int(ck.rs.randint(2 ** 31)), int(ck.rs.randint(0, 50))],
                                   'useed': int(ck.rs.randint(2 ** 31))})
     par = [t for t in tasks if t['function'] == 'nbs_parallel.nbs_bct']
@@ -265,8 +315,9 @@ def main():
         ran.setdefault(fn, 0)
         if r['status'] == 'ok':
             ran[fn] += 1
-        seen_draw[fn] = seen_draw.get(fn, 0) + r.get('local_draws', 0)
-        nt = r['status'] == 'ok' and r.get('local_draws', 0) > 0
+        seen_draw[fn] = seen_draw.get(fn, 0) + max(0, r.get('local_draws', 0))
+        ck.count('seed_in_range' if 0 <= t['seed'] < 2 ** 32 else 'seed_out_of_range')
+        nt = r['status'] == 'ok' and r.get('local_draws', 0) != 0
         ck.case(sample={'function': fn, 'kind': t['kind'], 'seed': t['seed'], 'local_draws': r.get('local_draws')} if nt else None,
                 nontrivial_key=digest([fn, t['kind'], t['bseed'], t['seed']]) if nt else None)
         for pred, info in r['fails']:
